@@ -10,6 +10,8 @@ import itertools
 import json
 import multiprocessing as mp
 import os
+import resource
+import signal
 import time
 from typing import Any, Callable, Dict, Iterable, Iterator, List, Optional, Sequence, Tuple
 
@@ -58,6 +60,68 @@ class Chooser:
 
 
 # --------------------------------------------------------------------------------------------------
+# Watchdog: the code under test may not terminate
+# --------------------------------------------------------------------------------------------------
+
+WATCHDOG_S = float(os.environ.get("VERIF_WATCHDOG_S", "20"))
+# shared by the workers of one check run (fork): once this many executions have hit the watchdog the verdict is in - the
+# remaining executions are not started any more (each would cost another WATCHDOG_S), the run is reported as cut short
+WATCHDOG_MAX_HITS = 12
+_WATCHDOG_HITS = mp.Value("i", 0)
+WORKER_MEM_BYTES = int(float(os.environ.get("VERIF_WORKER_MEM_GB", "6")) * (1 << 30))
+
+
+class WatchdogTimeout(Exception):
+    """One execution ran for longer than WATCHDOG_S of real time: the code under test loops (executions take milliseconds)."""
+
+
+def _on_alarm(signum: int, frame: Any) -> None:
+    raise WatchdogTimeout(f"one execution did not finish within {WATCHDOG_S:.0f} s of real time")
+
+
+class watchdog:
+    """`with watchdog():` around ONE execution of the code under test (main thread of the process only).  A library call that
+    never returns - a decoder spinning on a crafted record, a message builder that never runs out of records - would otherwise
+    hang the whole check; it is reported as a violation of the property being checked instead.  Runaway allocation is stopped by
+    the address-space limit of the worker (MemoryError), which the same handlers report."""
+
+    def __enter__(self) -> "watchdog":
+        if _WATCHDOG_HITS.value >= WATCHDOG_MAX_HITS:
+            raise WatchdogTimeout(f"not started: {WATCHDOG_MAX_HITS} executions of this run already failed to terminate")
+        signal.signal(signal.SIGALRM, _on_alarm)
+        signal.setitimer(signal.ITIMER_REAL, WATCHDOG_S)
+        return self
+
+    def __exit__(self, *exc: Any) -> None:
+        signal.setitimer(signal.ITIMER_REAL, 0)
+        if exc and exc[0] is not None and issubclass(exc[0], (WatchdogTimeout, MemoryError)):
+            with _WATCHDOG_HITS.get_lock():
+                _WATCHDOG_HITS.value += 1
+
+
+def watchdog_cut_short() -> bool:
+    return _WATCHDOG_HITS.value >= WATCHDOG_MAX_HITS
+
+
+def guarded_problem(fn: Callable[[Any], Tuple[Optional[str], str]]) -> Callable[[Any], Tuple[Optional[str], str]]:
+    """For task functions that return (problem-or-None, outcome class): the same with the watchdog around them."""
+    def g(item: Any) -> Tuple[Optional[str], str]:
+        try:
+            with watchdog():
+                return fn(item)
+        except (WatchdogTimeout, MemoryError) as exc:
+            what = "does not terminate" if isinstance(exc, WatchdogTimeout) else "allocates without bound"
+            return f"nonterminating: the code under test {what} ({exc})", "nonterminating"
+    return g
+
+
+def nonterminating(where: str, exc: BaseException) -> Dict[str, Any]:
+    what = "does not terminate" if isinstance(exc, WatchdogTimeout) else "allocates without bound"
+    return {"what": f"{where}: the code under test {what} ({exc})",
+            "replay": {"problems": [f"nonterminating: {type(exc).__name__}: {exc}"]}, "signature": {"check": "nonterminating"}}
+
+
+# --------------------------------------------------------------------------------------------------
 # Pool
 # --------------------------------------------------------------------------------------------------
 
@@ -69,6 +133,11 @@ def _worker_init() -> None:
     # gc.collect() then only looks at what the execution itself allocated
     import gc
     gc.freeze()
+    try:
+        soft, hard = resource.getrlimit(resource.RLIMIT_AS)
+        resource.setrlimit(resource.RLIMIT_AS, (WORKER_MEM_BYTES, hard))
+    except (ValueError, OSError):
+        pass
 
 
 def _call(arg: Any) -> Any:
@@ -208,13 +277,20 @@ def explore_deviations(run: RunFn, bound: int, stats: Stats, scenario: str, max_
         prefix, expect = prefix_expect
         ch = Chooser(prefix, expect)
         try:
-            verdict, obs, trans = run(ch)
+            with watchdog():
+                verdict, obs, trans = run(ch)
         except Reject as exc:
             return (malformed_output(scenario, exc), "malformed-output", 1, [(n, l) for n, l, _ in ch.log], ch.choices())
+        except (WatchdogTimeout, MemoryError) as exc:
+            return (nonterminating(scenario, exc), "nonterminating", 1, [(n, l) for n, l, _ in ch.log], ch.choices())
         if verdict is not None:
             # re-run once: a verdict that does not reproduce is a harness problem, not a violation
             ch2 = Chooser(ch.choices(), [(n, l) for n, l, _ in ch.log])
-            verdict2, obs2, _ = run(ch2)
+            try:
+                with watchdog():
+                    verdict2, obs2, _ = run(ch2)
+            except (WatchdogTimeout, MemoryError):
+                verdict2, obs2 = verdict, obs
             if (verdict2 is None) or obs2 != obs:
                 raise HarnessError(f"{scenario}: verdict not reproducible for choices {ch.choices()}")
         return (verdict, obs, trans, [(n, l) for n, l, _ in ch.log], ch.choices())
@@ -258,9 +334,12 @@ def explore_product(run_point: Callable[[Any], Tuple[Optional[Dict[str, Any]], s
     """Full Cartesian grid: run every point; `points` items must be JSON-serialisable."""
     def guarded_point(p: Any) -> Tuple[Optional[Dict[str, Any]], str, int]:
         try:
-            return run_point(p)
+            with watchdog():
+                return run_point(p)
         except Reject as exc:
             return malformed_output(f"{scenario} {p}", exc), "malformed-output", 1
+        except (WatchdogTimeout, MemoryError) as exc:
+            return nonterminating(f"{scenario} {p}", exc), "nonterminating", 1
 
     results = pmap(guarded_point, points)
     for p, (verdict, obs, trans) in zip(points, results):
@@ -295,9 +374,12 @@ def bfs_histories(step: StepFn, alphabet: Sequence[Any], depth: int, stats: Stat
     """
     def guarded_step(h: Tuple[Any, ...]) -> Tuple[Optional[Dict[str, Any]], Any, int]:
         try:
-            return step(h)
+            with watchdog():
+                return step(h)
         except Reject as exc:
             return malformed_output(f"{scenario} after {list(h)}", exc), ("malformed-output", h), len(h)
+        except (WatchdogTimeout, MemoryError) as exc:
+            return nonterminating(f"{scenario} after {list(h)}", exc), ("nonterminating", h), len(h)
 
     seen: set = set()
     per_level: Dict[int, set] = {}
@@ -385,7 +467,11 @@ def enumerate_inputs(check: Callable[[Any], Tuple[Optional[Dict[str, Any]], str]
         out: Dict[str, int] = {}
         bad: List[Tuple[Any, Dict[str, Any]]] = []
         for x in xs:
-            v, oc = check(x)
+            try:
+                with watchdog():
+                    v, oc = check(x)
+            except (WatchdogTimeout, MemoryError) as exc:
+                v, oc = nonterminating(f"{scenario} input {repr(x)[:300]}", exc), "nonterminating"
             out[oc] = out.get(oc, 0) + 1
             if v is not None and len(bad) < 20:
                 bad.append((x, v))
